@@ -44,6 +44,13 @@ GenDgVirt == {D(c, 1, TRUE, dst, "1") : c \in Clients, dst \in {1, 2, 3}}
 GenMidVirt == {R(2, "1"), R(8, "1"), R(1, "1")}
 GenRpVirt == {R(s, "1") : s \in {1, 2, 7, 8}}
 
+\* focused families (few clients, one key): a send that fails on a live association, a DNS query answered by another host
+\* first, replies around failing sends (real sockets) ...
+GenDgFocus == {D(c, 1, TRUE, dst, "1") : c \in {1, 2}, dst \in {1, 2, 14}}
+GenRpFocus == {R(s, "1") : s \in {1, 2, 6}}
+\* ... and (virtual time) a second DNS query during which a port-53 datagram arrives inside natconn.WriteTo
+GenDgVirtMid == {D(1, 1, TRUE, 2, "1"), D(1, 1, TRUE, 3, "1")}
+GenMidVirtMid == {R(2, "1"), R(8, "1")}
 GenInit == Init /\ done = FALSE /\ kind = 0
 NEnv == Len(tr)
 EnvC == \E x \in DgAlpha : ClientSend(x.c, x.k, x.hdr, x.dst, x.cls)
